@@ -469,7 +469,7 @@ theorem c04_typed_partial (mcfg : Cfg) (hap : mcfg.ap = false) (src : Src) (ext 
     have hfv := Proofs.TypedSer.fromValue_valueOf { po := mcfg.po, fr := mcfg.fr, ap := false } rfl {} s v hs hw
     have hag := Proofs.Typed.agree_gen ext hext (env := { cfg := mcfg, src := src }) rfl hap
       { po := mcfg.po, fr := mcfg.fr, ap := false } rfl {} Proofs.TypedSer.RT Proofs.TypedSer.closed_RT
-      (fun h => by cases h) (fun w v h _ b => Proofs.TypedSer.rt_int_notFloat w v h b) Proofs.TypedSer.rt_f64_range
+      (fun h => by cases h) (fun w v h _ b hb => absurd hb (Proofs.TypedSer.rt_int_notFloat w v h b)) Proofs.TypedSer.rt_f64_range
       (Model.Typed.Schema.size s + 1) s (by omega) hs 0 (Model.TypedSer.valueOf s v) hvok.1 hF
       (by rcases hd with h | h
           · exact .inl h
